@@ -24,6 +24,14 @@ from src import __version__
 from src.core.types import Violation
 
 
+
+def _sanitize(text: Any) -> Any:
+    """Replace lone surrogates (from undecodable path bytes) like the text and JSON renderings do."""
+    if not isinstance(text, str):
+        return text
+    return text.encode("utf-8", errors="surrogateescape").decode("utf-8", errors="replace")
+
+
 class SarifFormatter:
     """Formats Violation objects as SARIF v2.1.0 JSON documents.
 
@@ -174,7 +182,7 @@ class SarifFormatter:
             "ruleId": violation.rule_id,
             "level": "error",
             "message": {
-                "text": violation.message,
+                "text": _sanitize(violation.message),
             },
             "locations": [self._create_location(violation)],
         }
@@ -191,7 +199,7 @@ class SarifFormatter:
         return {
             "physicalLocation": {
                 "artifactLocation": {
-                    "uri": violation.file_path,
+                    "uri": _sanitize(violation.file_path),
                 },
                 "region": {
                     "startLine": violation.line,
